@@ -25,6 +25,16 @@ fn header(id: u16, word: u16, counts: [u16; 4]) -> Vec<u8> {
     h
 }
 
+/// An observed opcode / rcode agrees with the raw field when it is that number, or when the
+/// number has no name in this harness' tables and the library reports its Reserved variant
+/// (so a library that grows further named variants, correctly numbered, still agrees).
+fn op_ok(observed: u8, raw: u8) -> bool {
+    observed == raw || (observed == OPCODE_RESERVED && named_opcode(raw) == OPCODE_RESERVED)
+}
+fn rc_ok(observed: u16, raw: u16) -> bool {
+    observed == raw || (observed == RCODE_RESERVED && !NAMED_RCODES.contains(&raw))
+}
+
 fn named_opcode(n: u8) -> u8 {
     if NAMED_OPCODES.contains(&n) {
         n
@@ -74,15 +84,74 @@ pub fn check_parse(word: u16, id: u16) -> Vec<Finding> {
                         case.clone(),
                     ));
                 }
-                if o.opcode != exp_op {
+                if !op_ok(o.opcode, ((word >> 11) & 0xf) as u8) {
                     out.push(finding("C08|parse|opcode", format!("word {:#06x}: opcode read {}, RFC field {}", word, o.opcode, exp_op), case.clone()));
                 }
-                if o.rcode != exp_rc {
+                if !rc_ok(o.rcode, word & 0xf) {
                     out.push(finding("C08|parse|rcode", format!("word {:#06x}: rcode read {}, RFC field {}", word, o.rcode, exp_rc), case.clone()));
                 }
                 if o.opt.is_some() || !o.questions.is_empty() || !o.answers.is_empty() {
                     out.push(finding("C08|parse|phantom-content", "bare header parsed with content".to_string(), case));
                 }
+            }
+        }
+    }
+    out
+}
+
+/// A header announcing `counts` entries followed by exactly those entries (cut 0), or by the
+/// questions only (1), by all but the last byte (2), by the questions and one record (3): whenever
+/// the parser accepts, the packet's four counts and the peeks are the header's counts.
+pub fn check_parse_counts(word: u16, counts: [u16; 4], cut: u8) -> Vec<Finding> {
+    let case = json!({"kind": "parse-counts", "word": word, "counts": counts, "cut": cut});
+    let mut m = header(0x0c08, word, counts);
+    for i in 0..counts[0] {
+        m.extend_from_slice(&[1, b'q' + (i % 3) as u8, 0, 0, 1, 0, 1]);
+    }
+    let after_questions = m.len();
+    let mut after_first = m.len();
+    let nrec = counts[1] as usize + counts[2] as usize + counts[3] as usize;
+    for i in 0..nrec {
+        if counts[0] > 0 {
+            m.extend_from_slice(&[0xc0, 12]); // the first question's name
+        } else {
+            m.push(0);
+        }
+        m.extend_from_slice(&[0, 1, 0, 1, 0, 0, 0, 60, 0, 4, 10, 0, 0, i as u8]);
+        if i == 0 {
+            after_first = m.len();
+        }
+    }
+    let full = m.len();
+    let keep = match cut {
+        0 => full,
+        1 => after_questions,
+        2 => full.saturating_sub(1).max(12),
+        _ => after_first,
+    };
+    m.truncate(keep);
+    let complete = keep == full;
+    let mut out = Vec::new();
+    let r = guarded(|| Packet::parse(&m).map(|p| (p.questions.len(), p.answers.len(), p.name_servers.len(), p.additional_records.len() + usize::from(p.opt().is_some()))));
+    match r {
+        Err(p) => out.push(finding(format!("C08|parse-counts|{}", p.sig()), format!("{:?}", p), case)),
+        Ok(Err(_)) => {
+            if complete && word & F_Z == 0 && (counts[0] == 0 || true) {
+                out.push(finding("C08|parse-counts|complete-message-rejected", format!("word {:#06x} counts {:?}: complete message rejected", word, counts), case));
+            }
+        }
+        Ok(Ok((q, a, n, ar))) => {
+            let want = (counts[0] as usize, counts[1] as usize, counts[2] as usize, counts[3] as usize);
+            if (q, a, n, ar) != want {
+                out.push(finding(
+                    if complete { "C08|parse-counts|counts-differ" } else { "C08|parse-counts|truncated-accepted" },
+                    format!("word {:#06x}: header counts {:?}, parsed packet holds {:?} ({} of {} bytes present)", word, counts, (q, a, n, ar), keep, full),
+                    case.clone(),
+                ));
+            }
+            let peeks = (header_buffer::questions(&m).ok(), header_buffer::answers(&m).ok(), header_buffer::name_servers(&m).ok(), header_buffer::additional_records(&m).ok());
+            if peeks != (Some(counts[0]), Some(counts[1]), Some(counts[2]), Some(counts[3])) {
+                out.push(finding("C08|parse-counts|peeks", format!("peeks {:?} vs header {:?}", peeks, counts), case));
             }
         }
     }
@@ -108,12 +177,12 @@ pub fn check_peek(word: u16, id: u16, counts: [u16; 4], subs: &[u16]) -> Vec<Fin
         chk("additional_records", e(header_buffer::additional_records(&h)), counts[3] as u32);
         chk(
             "opcode",
-            header_buffer::opcode(&h).map(|o| opcode_num(o) as u32).map_err(|e| format!("{:?}", e)),
+            header_buffer::opcode(&h).map(|o| if op_ok(opcode_num(o), ((word >> 11) & 0xf) as u8) { named_opcode(((word >> 11) & 0xf) as u8) as u32 } else { opcode_num(o) as u32 }).map_err(|e| format!("{:?}", e)),
             named_opcode(((word >> 11) & 0xf) as u8) as u32,
         );
         chk(
             "rcode",
-            header_buffer::rcode(&h).map(|o| rcode_num(o) as u32).map_err(|e| format!("{:?}", e)),
+            header_buffer::rcode(&h).map(|o| if rc_ok(rcode_num(o), word & 0xf) { named_rcode4(word & 0xf) as u32 } else { rcode_num(o) as u32 }).map_err(|e| format!("{:?}", e)),
             named_rcode4(word & 0xf) as u32,
         );
         for s in subs {
@@ -428,12 +497,12 @@ pub fn check_parse_opt(word: u16, ext: u8, version: u8) -> Vec<Finding> {
             if o.flags != word & FLAG_MASK {
                 out.push(finding("C08|parse-opt|flags", format!("word {:#06x} with OPT: flags {:#06x}", word, o.flags), case.clone()));
             }
-            if o.opcode != named_opcode(((word >> 11) & 0xf) as u8) {
+            if !op_ok(o.opcode, ((word >> 11) & 0xf) as u8) {
                 out.push(finding("C08|parse-opt|opcode", format!("word {:#06x} with OPT: opcode {}", word, o.opcode), case.clone()));
             }
             let full = ((ext as u16) << 4) | (word & 0xf);
             let exp = if NAMED_RCODES.contains(&full) { full } else { RCODE_RESERVED };
-            if o.rcode != exp {
+            if !rc_ok(o.rcode, full) {
                 out.push(finding(
                     "C08|parse-opt|rcode",
                     format!("word {:#06x}, OPT ext-rcode {} version {:#04x}: rcode read {}, header low bits {} under extended byte give {}", word, ext, version, o.rcode, word & 0xf, exp),
@@ -473,6 +542,26 @@ pub fn run(ctx: &Ctx) {
         }
     });
     ctx.space("parse+reserialise: 65536 flag words x 4 ids", 65536 * 4 * 2, "complete");
+    // space 1b: headers followed by their entries, complete and cut
+    let tuples: [[u16; 4]; 6] = [[1, 0, 0, 0], [1, 3, 1, 0], [1, 1, 1, 1], [0, 2, 0, 0], [2, 0, 0, 1], [3, 2, 2, 2]];
+    par_shards(ctx, &shards, |ws, t: &mut Tally| {
+        for &w in ws.iter() {
+            for c in tuples {
+                for cut in 0..4u8 {
+                    t.evals += 1;
+                    if w & F_Z == 0 {
+                        t.nontrivial += 1;
+                    }
+                    let f = check_parse_counts(w, c, cut);
+                    if !f.is_empty() {
+                        t.outcome("parse-counts:bad");
+                        ctx.violations(f);
+                    }
+                }
+            }
+        }
+    });
+    ctx.space("parse with content: 65536 flag words x 6 count tuples x {complete, cut after the questions, cut one byte short, cut after the first record}", 65536 * 6 * 4, "complete");
     // space 2: peeks, all words x 81 count tuples
     let cvals = [0u16, 1, 0xffff];
     let single: Vec<u16> = ALL_FLAGS.to_vec();
@@ -601,6 +690,12 @@ pub fn run(ctx: &Ctx) {
 }
 
 pub fn replay(case: &Value) -> Vec<Finding> {
+    if case["kind"].as_str() == Some("parse-counts") {
+        let c: Vec<u16> = case["counts"].as_array().map(|a| a.iter().map(|x| x.as_u64().unwrap_or(0) as u16).collect()).unwrap_or_default();
+        if c.len() == 4 {
+            return check_parse_counts(case["word"].as_u64().unwrap_or(0) as u16, [c[0], c[1], c[2], c[3]], case["cut"].as_u64().unwrap_or(0) as u8);
+        }
+    }
     let g = |k: &str| case[k].as_u64().unwrap_or(0);
     let subs = subsets();
     match case["kind"].as_str().unwrap_or("") {
